@@ -18,9 +18,11 @@ from sx import Sym
 
 PROP = "C04"
 PROP_FILE = "C04_TC"
+KEY_REFLEXIVE = "C04:is_ancestor_of_not_reflexive_for_present_entity"
 THEOREMS = ["c04_closure_correct", "c04_closure_fuel", "c04_recompute_inv", "c04_recompute_reject",
             "c04_spec_op_inv", "c04_spec_op_reject", "c04_spec_op_cycle_rejected", "c04_history",
-            "c04_queries", "c04_enforce", "c04_enforce_closed", "c04_inc_edit_parents_partial"]
+            "c04_queries", "c04_enforce", "c04_enforce_closed", "c04_inc_edit_parents_partial",
+            "c04_repair_correct", "c04_repair_sound", "c04_inc_refines_add_partial", "c04_inc_refines_remove_partial", "c04_inc_refines_upsert_partial"]
 
 MANIFEST = {
     "text": "Closure = reachability through direct parents (fuel proved sufficient); every successful ComputeNow operation of the spec layer and every history (fold_left) yields a store whose cached ancestors are exactly parent-reachability, acyclic, parents/indirect disjoint; rejection iff the edited parent graph has a cycle; is_ancestor_of / `e in a` / ancestor listing characterised under the invariant; enforce_tc_and_dag = Ok implies closed and acyclic (props/C04_TC.v). Tied to /repo by correspondence on operation histories (public API ComputeNow + core EnforceAlreadyComputed) against both model layers, plus an implementation-level oracle (independent BFS over the dumped direct parents, expected parent-graph edit, accept iff acyclic).",
@@ -318,10 +320,11 @@ def oracle(h, r, obs=None):
                 if got_in != ("1" if want else "0"):
                     return where + "`%s in %s` evaluates to %s, reachability says %s" % (e, a, got_in, want)
                 got = st["is_ancestor_of"][ai][ei]
-                if a != e:
-                    if got != ("1" if want else "0"):
-                        return where + "is_ancestor_of(%s, %s) = %s, reachability says %s" % (a, e, got, want)
-                elif obs is not None:
+                if got != ("1" if want else "0"):
+                    if a == e and e in parents:
+                        return where + "REFLEXIVE: is_ancestor_of(%s, %s) = %s for an entity present in the store; `%s in %s` is true" % (a, e, got, e, a)
+                    return where + "is_ancestor_of(%s, %s) = %s, reachability says %s" % (a, e, got, want)
+                if a == e and obs is not None:
                     obs["is_ancestor_of(x,x) present=%s -> %s" % (e in parents, got)] += 1
         ok = st["res"] == "ok"
         if ok and op["mode"] == "enforce":
@@ -444,9 +447,11 @@ def run(rep, tier, seed):
                     return oracle(c, fw.run_rust(harness, [rust_cmd(c)])[0]) is not None
                 small = shrink(harness, h, fails)
                 r2 = fw.run_rust(harness, [rust_cmd(small)])[0]
+                f2 = oracle(small, r2)
                 rep.violation({"property": PROP, "kind": "implementation violates the property (oracle: independent BFS over dumped direct parents)",
-                               "failure": oracle(small, r2), "history": small, "rust": r2, "rust_cmd": rust_cmd(small),
-                               "original_failure": bad})
+                               "failure": f2, "history": small, "rust": r2, "rust_cmd": rust_cmd(small),
+                               "original_failure": bad},
+                              key=(KEY_REFLEXIVE if f2 and "REFLEXIVE:" in f2 else None))
             continue
         for layer, m, thm in (("inc", mi, "c04_inc_refines (unproved; correspondence only)"), ("spec", ms, "c04_history / c04_spec_op_inv")):
             cm = canon_model(h, m)
@@ -497,7 +502,7 @@ def run(rep, tier, seed):
         "entities of every operation are built fresh (direct parents only, no cached indirect ancestors), the public way",
         "store operations take the store by value: after a failed operation the history continues from a clone taken before the call, so 'a failed operation leaves the store unchanged' is not observable",
         "HashMap/HashSet iteration order is not modelled; results compared as sorted sets; error class only",
-        "is_ancestor_of(x, x) is not judged (returns false for a present x and true for an absent x, unlike `x in x`); recorded under observations",
+        "is_ancestor_of(a, b) is judged for all pairs including a == b (present and absent): it must equal a == b or a reachable from b",
     ]
 
 
